@@ -48,18 +48,24 @@ def histogram(line):
 
 
 COMMON_TRUSTED = [
-    "Coq 8.16.1 kernel (coqc); Flocq 4.1 BinarySingleNaN as the definition of binary32 arithmetic",
+    "Coq 8.16.1 kernel (coqc); Flocq 4.1 BinarySingleNaN as the definition of binary32 arithmetic and comparison",
     "extraction: ExtrOcamlBasic only (nat, Z, positive, list kept as extracted inductives); OCaml 4.13.1",
-    "hand-written OCaml driver ocaml/scan/driver.ml (parsing, printing, comparison of hit lists)",
+    "hand-written OCaml driver ocaml/scan/driver.ml (parsing, printing, calling the extracted checkers "
+    "check_c02 / check_c03 on the implementation's observations, comparison with the extracted model)",
     "Rust harness harness/src/bin/scan.rs (generator, ScoringMatrix/StripedSequence construction through the public "
     "API, Scanner::new(..).threshold(..).block_size(..), next()/take()/max() under catch_unwind, backend hook "
-    "pli::verif::force_backend)",
-    "modelled by their specification, not verified here (other groups: C01/C04/C07/C08): the striped layout made by "
-    "Stripe::stripe + configure_wrap (cell (r,c) = symbol c*R+r, wildcard past L), the AVX2 u8 kernel "
-    "(= saturating sum of discrete cells), Maximum<u8>::max (largest cell), Threshold<u8>::threshold (cells >= t, "
-    "row-major); all of them are exercised by the bit-exact replay on every run",
+    "pli::verif::force_backend); the per-position scores the checkers use are the implementation's own "
+    "ScoringMatrix::score_position values",
+    "the tie: that the hand-written model ScanModel.v/ScanConcrete.v follows scan.rs, pwm/mod.rs "
+    "(to_discrete, scale, score_position), seq.rs (Index<usize>) and the guards of the score_rows_into wrappers is "
+    "checked by bit-exact replay on every run (hits in yield order, take(k), max() after k next(), panics), not proved",
+    "modelled by their specification inside the concrete model, not verified here (properties C04/C07/C08 of other "
+    "groups): the striped layout made by Stripe::stripe + configure_wrap (cell (r,c) = symbol c*R+r, wildcard past L), "
+    "the AVX2 u8 kernel (= saturating sum of discrete cells), Maximum<u8>::max (largest cell), "
+    "Threshold<u8>::threshold (cells >= t, row-major); exercised by the replay on every run under all three arms",
     "not modelled: usize overflow of row + block_size (unreachable: only evaluated when row < R and row is 0 or >= B), "
-    "the unused f32 `scores` buffer of the Scanner, Scanner::scores()",
+    "the unused f32 `scores` buffer of the Scanner, Scanner::scores(); block_size = 0 (never returns; outside the "
+    "property, rejected by the Python binding)",
 ]
 
 SPEC = dict(
@@ -83,15 +89,30 @@ SPEC = dict(
          "model only); thresholds -1000, min score, quantiles, an attained score, max, next float above max, max+1, "
          "default, 0, +-inf, NaN. Each case is run under the forced Generic, Sse2 and Avx2 dispatcher arms: "
          "iteration to exhaustion (hits in yield order, position + score bits), two take(k) prefixes, and the "
-         "brute-force score_position of every position. PROPFAIL: extracted check_c02 (sorted hits == positions with "
-         "score >= thr from the implementation's own scores; take(k) = k distinct qualifying hits; no panic). "
-         "DIFF: bit-exact comparison with the extracted binary32 scanner model incl. yield order. Non-trivial: distinct "
-         "(M, L, B, wrap, thr, matrix) with L >= M and wrap >= M-1.",
+         "brute-force score_position of every position. PROPFAIL: the extracted checker check_c02, proved sound in Coq "
+         "(C02_check_sound: true => the hit list has no duplicate position and contains (i,s) iff s is the score of "
+         "position i and s >= thr), on the implementation's own scores; take(k) = min(k,#qualifying) distinct "
+         "qualifying hits; any panic on a configured input. DIFF: bit-exact comparison with the extracted binary32 "
+         "scanner model incl. yield order and panic sites. Non-trivial: distinct (M, L, B, wrap, thr, matrix) with "
+         "L >= M and wrap >= M-1. Theorems (7): C02_scan_sound, C02_take_sound (unconditional), C02_scan_complete, "
+         "C02_next_total, C02_take_prefix (all B >= 1, all R/Lm incl. L<M, L=0, R multiple of B, any threshold; under "
+         "the layout hypotheses and C08 conservativeness at the threshold), C02_scan_blocks_partition, C02_check_sound; "
+         "plus C02_concrete_scan / C02_concrete_sound: the same for the extracted concrete model with the layout "
+         "hypotheses discharged (every arm).",
     trusted_base=COMMON_TRUSTED,
     assumptions=[
-        "conservative (property C08): a position whose f32 score is >= t has an 8-bit score >= scale(t); it is a "
-        "hypothesis of scan_complete (scan_sound does not need it) and is re-checked by the driver on every lost hit",
-        "the striped sequence was configured for the motif (wrap >= M-1), the motif is not empty (M >= 1), no NaN "
-        "among the non-wildcard matrix cells (to_discrete unwraps partial_cmp), block size >= 1",
+        "conservative (property C08) at the scanner's threshold: a valid position whose f32 score is >= thr has an "
+        "8-bit score >= scale(thr). Hypothesis of C02_scan_complete / C02_take_prefix / C02_concrete_scan only "
+        "(C02_scan_sound, C02_take_sound, C02_concrete_sound do not need it). Group disc proves it in exact arithmetic "
+        "and refutes it for binary32 on ill-conditioned matrices (C08_ieee_refuted); the driver re-checks it on every "
+        "lost hit and names it in the PROPFAIL detail (c08-prefilter-not-conservative)",
+        "layout hypotheses of the abstract theorems (score_position defined on the L-M+1 valid positions; block "
+        "scores of rows a..e = byte score of position c*R+a+r in cell (r,c), no rows when L < M; Lm <= R*C): proved "
+        "for the concrete model in ConcreteProofs.v for every well-formed input (C >= 1, M >= 1, wrap >= M-1, matrix "
+        "rows of >= K cells, symbols < K) and every arm",
+        "qualifying scores are not NaN: follows from the IEEE comparison (F32Order.v: x >= t implies x is not NaN)",
+        "input side conditions of the property: block size >= 1, motif not empty, sequence configured for the motif; "
+        "no NaN among the non-wildcard matrix cells (to_discrete unwraps partial_cmp: Scanner::new panics, compared "
+        "with the model only)",
     ],
 )
